@@ -1,6 +1,7 @@
 import J5V.Compile.ConvertProofs
 import J5V.Compile.ShapeProofs
 import J5V.Compile.RefProofs
+import J5V.Compile.RefsPkg
 import J5V.Generated.CompileconstsFacts
 /-!
 # C02 — j5s compiles to exactly the protobuf contract the source declares
@@ -259,7 +260,137 @@ theorem C02_topic_roles (name : Str) (msgs reqs reps : List TopicMsg) (en : Str)
     ∀ (c : Ctx) (t : Topic), convTopic c t = (topicNodes t).flatMap (acceptTopic c) :=
   ⟨rfl, rfl, rfl, rfl, rfl, fun _ _ => rfl⟩
 
+/-! ## File and package level -/
+
+/-- **Exactness of a converted file.** When `ConvertJ5File` succeeds, the output is the main file
+`<path>.proto` (package from the path, no services) followed by at most one file per sub-package
+(`.service`, `.topic`), present exactly when a service / topic (or an entity, which expands to
+both) is declared. Every component is a list equation over the visited items in declaration
+order: messages and enums of the main file come from the object / oneof / enum items, messages
+and services of a sub-package file from the service / topic items. Nothing else is emitted.
+(`items` = the declarations with entities expanded, `C17_components`.) -/
+theorem C02_exactness_file (res : Resolver) (path : Str) (imports : List Import) (elems : List Elem)
+    (fs : List FileSkel) (h : convertFile res path imports elems = .ok fs) :
+    ∃ im, j5Imports (packageFromFilename (path ++ b!".proto")) imports = .ok im ∧
+      let c : Ctx := { resolve := resolveTypeNoImport im res }
+      let pkg := packageFromFilename (path ++ b!".proto")
+      let name := path ++ b!".proto"
+      let items := elems.flatMap (itemsOfElem pkg)
+      ∃ (main : FileSkel) (subs : List FileSkel), fs = main :: subs ∧
+        main.name = name ∧ main.pkg = pkg ∧ main.svcs = [] ∧
+        main.msgs = (items.filter (·.target = .main)).flatMap (itemMsgs c) ∧
+        main.enums = (items.filter (·.target = .main)).flatMap (itemEnums c) ∧
+        (subs.map (·.pkg)).Nodup ∧
+        (∀ f ∈ subs, ∃ (t : Target) (k : Str), t.sub = some k ∧ (∃ i ∈ items, i.target = t) ∧
+          f.name = subPackageFileName name k ∧ f.pkg = pkg ++ b!"." ++ k ∧
+          f.msgs = (items.filter (·.target = t)).flatMap (itemMsgs c) ∧ f.enums = [] ∧
+          f.svcs = (items.filter (·.target = t)).flatMap (itemSvcs c)) ∧
+        (∀ (t : Target) (k : Str), t.sub = some k → (∃ i ∈ items, i.target = t) →
+          ∃ f ∈ subs, f.pkg = pkg ++ b!"." ++ k) :=
+  convertFile_exact res path imports elems fs h
+
+/-- **Exactness, item by item**: what each visited item adds to its file. An object: exactly its
+message (inline types, nested types and map entries live inside it, `C02_field_numbering`). A
+oneof: its message, preceded only by the map entries of its options. An enum: exactly one enum.
+A service file: per service the `<Method>Request` / `<Method>Response` objects of its methods and
+one proto service when it is named. A topic file: per topic node one `<Name>Message` object per
+named message (implicit leading fields first) and one proto service. -/
+theorem C02_exactness_items (c : Ctx) :
+    (∀ o, itemMsgs c (.object o) = [declMsgOf c [] false [] o] ∧ itemEnums c (.object o) = []) ∧
+    (∀ o, (∃ entries, itemMsgs c (.oneof o) = entries ++ [declMsgOf c [] true [] o] ∧
+        ∀ m ∈ entries, m.kind = .mapentry) ∧ itemEnums c (.oneof o) = []) ∧
+    (∀ e, itemMsgs c (.enum e) = [] ∧ itemEnums c (.enum e) = [convEnum e]) ∧
+    (∀ ss, itemMsgs c (.serviceFile ss) = ss.flatMap (fun s => s.methods.flatMap (methodMsgs c)) ∧
+      itemSvcs c (.serviceFile ss) = ss.flatMap (serviceSvcs c)) ∧
+    (∀ ts, itemMsgs c (.topicFile ts) = ts.flatMap (fun t => (topicNodes t).flatMap (topicMsgs c)) ∧
+      itemSvcs c (.topicFile ts) = ts.flatMap fun t => (topicNodes t).map topicSvc) :=
+  ⟨fun o => ⟨itemMsgs_object c o, itemEnums_object c o⟩,
+   fun o => ⟨itemMsgs_oneof c o, itemEnums_oneof c o⟩,
+   fun e => ⟨itemMsgs_enum c e, itemEnums_enum c e⟩,
+   fun ss => ⟨itemMsgs_serviceFile c ss, itemSvcs_serviceFile c ss⟩,
+   fun ts => ⟨itemMsgs_topicFile c ts, itemSvcs_topicFile c ts⟩⟩
+
+/-- **Exactness of a compiled package.** The files `CompilePackage` hands to the linker are a
+permutation (sorted by name) of the concatenation, over the source files of the package in listing
+order, of what each j5s file converts to against the package's resolver (hand-written `.proto`
+files contribute nothing); each of these conversions succeeded, so `C02_exactness_file` describes
+it. -/
+theorem C02_exactness_pkg (b : Bundle) (name : Str) (p : Pkg) (fs : List FileSkel)
+    (hf : b.find name = some p) (h : compilePkg b name = .ok fs) :
+    ∃ l, loadPkg b (b.pkgs.length + 1) [] name = .ok l ∧
+      fs.Perm (p.files.flatMap (convOf l.resolver)) ∧
+      ∀ f ∈ p.files, match f with
+        | .proto _ _ _ => convOf l.resolver f = []
+        | .j5s path imports elems _ =>
+          convertFile l.resolver path imports elems = .ok (convOf l.resolver f) := by
+  unfold compilePkg at h
+  cases hl : loadPkg b (b.pkgs.length + 1) [] name with
+  | err t => simp [hl] at h
+  | panic w => simp [hl] at h
+  | ok l =>
+    simp only [hl, Outcome.ok.injEq] at h
+    obtain ⟨hfiles, hok⟩ := loadPkg_ok_inv b _ [] name p l hf hl
+    refine ⟨l, rfl, ?_, ?_⟩
+    · rw [← h, ← hfiles]; exact sortFiles_perm_self _
+    · intro f hfm
+      cases f with
+      | proto path msgs enums => rfl
+      | j5s path imports elems decl =>
+        obtain ⟨fs', hfs'⟩ := hok _ hfm
+        simp only [convOf, hfs']
+
+/-- **References resolve to the declared type, and its file is imported** (package level). In a
+package that loads, for every j5s file and every type reference in it — local, cross-file,
+imported by package / alias / last-but-one segment, dotted nested names, in objects, oneofs,
+service request / response objects, topic messages, everything an entity expands to, at any inline
+depth — the reference resolves in the file's conversion context (import map + the package's
+resolver, `C02_refs_resolve` says which table is consulted), and the file that declares the type
+is the generated file holding the reference or one of its dependencies. -/
+theorem C02_refs_resolve_pkg (b : Bundle) (name : Str) (p : Pkg) (l : Loaded) (fuel : Nat)
+    (chain : List Str) (hf : b.find name = some p) (hl : loadPkg b (fuel + 1) chain name = .ok l)
+    (path : Str) (imports : List Import) (elems : List Elem) (decl : Str)
+    (hmem : SrcFile.j5s path imports elems decl ∈ p.files) :
+    ∃ im fs, j5Imports (packageFromFilename (path ++ b!".proto")) imports = .ok im ∧
+      convertFile l.resolver path imports elems = .ok fs ∧ (∀ f ∈ fs, f ∈ l.files) ∧
+      let c : Ctx := { resolve := resolveTypeNoImport im l.resolver }
+      let pkg := packageFromFilename (path ++ b!".proto")
+      ∀ i ∈ elems.flatMap (itemsOfElem pkg), ∀ r ∈ itemRefs i,
+        ∃ t, c.resolve r.1 r.2 = some t ∧
+          ∃ f ∈ fs, f.pkg = targetPkg pkg i.target ∧ (t.file = f.name ∨ t.file ∈ f.deps) := by
+  obtain ⟨hfiles, hok⟩ := loadPkg_ok_inv b fuel chain name p l hf hl
+  obtain ⟨fs, hfs⟩ := hok _ hmem
+  obtain ⟨im, hj, hrefs⟩ := convertFile_refs l.resolver path imports elems fs hfs
+  refine ⟨im, fs, hj, hfs, ?_, hrefs⟩
+  intro f hf'
+  rw [hfiles]
+  exact List.mem_flatMap.mpr ⟨_, hmem, by simp only [convOf, hfs]; exact hf'⟩
+
 /-! ## Non-vacuity -/
+
+/-- a two-package bundle: `bar.v1` refers to a type of `foo.v1` through the last-but-one segment
+of an import, to a type of another file of its own package, and declares a service and a topic -/
+def exBundle : Bundle :=
+  { pkgs :=
+    [ { name := b!"foo.v1", files :=
+        [ .j5s b!"foo/v1/a.j5s" [] [.object (.mk b!"A" [.mk b!"x" false false (.string [] false)] [] none)]
+            b!"foo.v1" ] },
+      { name := b!"bar.v1", files :=
+        [ .j5s b!"bar/v1/b.j5s" [] [.enum { name := b!"E", pfx := [], opts := [b!"ONE"] }] b!"bar.v1",
+          .j5s b!"bar/v1/c.j5s" [⟨b!"foo.v1", []⟩]
+            [ .object (.mk b!"C" [ .mk b!"a" false false (.objectRef b!"foo" b!"A" false []),
+                                   .mk b!"e" false false (.enumRef [] b!"E" [] none) ] [] none),
+              .service { name := some b!"Svc", basePath := none, methods :=
+                [ { name := b!"Get", verb := .get, path := b!"/c", request := some [],
+                    response := some [.mk b!"c" false false (.objectRef [] b!"C" false [])] } ] },
+              .topic { name := b!"Pub", type := .publish [{ name := some b!"Ping", props := [] }] } ]
+            b!"bar.v1" ] } ] }
+
+/-- the hypotheses of `C02_exactness_pkg` / `C02_refs_resolve_pkg` hold for it: the package
+compiles (three generated files for `c.j5s`, one for `b.j5s`) and links -/
+example : (match compilePkg exBundle b!"bar.v1" with
+    | .ok fs => decide (fs.map (·.name) = [b!"bar/v1/b.j5s.proto", b!"bar/v1/c.j5s.proto",
+        b!"bar/v1/service/c.p.j5s.proto", b!"bar/v1/topic/c.p.j5s.proto"])
+    | _ => false) = true := by decide
 
 /-- a concrete object: two scalar fields and an inline object, converted without error -/
 def exObj : ObjDecl :=
